@@ -385,10 +385,12 @@ func (l *Loader) preparePhase(item *FetchItem) (*preparedFetch, error) {
 	defer l.dataBuffer.Unlock()
 
 	if l.shouldSkipErroredDependencyLocked(item) {
+		verifPoint("ld.skipped", verifFetchID(item), 0)
 		return nil, nil
 	}
 
 	items := l.selectItemsForPath(item.FetchPath)
+	verifPoint("ld.prepared", verifFetchID(item), uint64(len(items)))
 	res := &result{}
 	prepared := &preparedFetch{
 		item:  item,
@@ -415,6 +417,7 @@ func (l *Loader) preparePhase(item *FetchItem) (*preparedFetch, error) {
 }
 
 func (l *Loader) loadPhase(ctx context.Context, prepared *preparedFetch) error {
+	verifPoint("ld.load", verifFetchID(prepared.item), verifBool(prepared.skipLoad))
 	if prepared.skipLoad {
 		return nil
 	}
@@ -430,6 +433,7 @@ func (l *Loader) loadPhase(ctx context.Context, prepared *preparedFetch) error {
 	if prepared.res.err != nil {
 		l.recordErroredFetchID(prepared.item)
 	}
+	verifPoint("ld.loaded", verifFetchID(prepared.item), verifBool(prepared.res.err != nil))
 
 	// The response is not read here: this phase runs unlocked and concurrently
 	// across parallel fetches, and parsing it would allocate on the arena
@@ -441,6 +445,7 @@ func (l *Loader) loadPhase(ctx context.Context, prepared *preparedFetch) error {
 func (l *Loader) mergePhase(prepared *preparedFetch) error {
 	l.dataBuffer.Lock()
 	defer l.dataBuffer.Unlock()
+	verifPoint("ld.merging", verifFetchID(prepared.item), verifErrCount(l))
 
 	if prepared.multiEntries != nil {
 		return l.mergeMultiEntityResult(prepared)
@@ -451,6 +456,7 @@ func (l *Loader) mergePhase(prepared *preparedFetch) error {
 	}
 
 	err := l.mergeResult(prepared.item, prepared.res, prepared.items)
+	verifPoint("ld.merged", verifFetchID(prepared.item), verifErrCount(l))
 	l.callOnFinished(prepared.res)
 	return err
 }
